@@ -186,6 +186,59 @@ def inheritance_family(ck: Check) -> None:
                          {"type": "inherit", "shape": si, "base": base, "child": child, "partial": part, "got": got, "reference": ref})
 
 
+LOOP_PARTIALS = {
+    # what a partial can say about loops: its own forloop (render .. for), and -- never -- the caller's
+    "pl": "[{{ forloop.index }}/{{ forloop.length }}|{{ forloop.parentloop.index }}|{{ forloop.parentloop.length }}|{{ forloop.parentloop.name }}"
+          "|{{ forloop.parentloop.first }}|{{ tablerowloop.col }}|{{ i }}|{{ outer }}]",
+    "pn": "{% for k in (1..2) %}({{ forloop.index }}:{{ forloop.parentloop.index }}:{{ forloop.parentloop.parentloop.index }}:{{ forloop.parentloop.name }}){% endfor %}",
+}
+LOOP_TAGS = ["{% render 'pl' %}", "{% render 'pl' for items as it %}", "{% render 'pl' with items[0] as it %}", "{% render 'pn' %}",
+             "{% render 'pn' for items %}", "{% render 'pl', w: 1 %}"]
+LOOP_CALLERS = [
+    "{% for outer in secret %}X{% endfor %}",
+    "{% for outer in secret %}{% for i in (5..6) %}X{% endfor %}{% endfor %}",
+    "{% tablerow outer in secret cols:2 %}X{% endtablerow %}",
+    "{% for outer in secret limit:1 %}{% if true %}{% capture c %}X{% endcapture %}{{ c }}{% endif %}{% endfor %}",
+]
+
+
+def loop_object_family(ck: Check) -> None:
+    """A render tag inside the caller's for / tablerow loops: the partial's forloop is its own (render .. for) or undefined, and
+    forloop.parentloop, tablerowloop and the caller's loop variables are undefined inside it -- the text the tag prints is the text
+    it prints at the top level of a template with no loops (per iteration of the caller)."""
+    from liquid import DictLoader, Environment
+
+    from ..core import classify_exc, run_async
+
+    data = {"items": ["A", "B"], "secret": ["s1", "s2", "s3"]}
+    for ti, tag in enumerate(LOOP_TAGS):
+        outs = {}
+        for ci, shape in enumerate(["X"] + LOOP_CALLERS):
+            env = Environment(loader=DictLoader(dict(LOOP_PARTIALS)))
+            src = shape.replace("X", "<<" + tag + ">>")
+            res = []
+            for use_async in (False, True):
+                try:
+                    t = env.from_string(src)
+                    res.append(("out", run_async(t.render_async(**data)) if use_async else t.render(**data)))
+                except Exception as e:  # noqa: BLE001
+                    res.append(("err", classify_exc(e)))
+            outs[ci] = (src, res)
+            ck.note_case(("loopobj", ti, ci))
+            ck.count("loop-object-shapes")
+        ref_src, ref = outs[0]
+        ref_seg = SEG.findall(ref[0][1]) if ref[0][0] == "out" else None
+        for ci in range(1, len(LOOP_CALLERS) + 1):
+            src, res = outs[ci]
+            segs = [SEG.findall(o[1]) if o[0] == "out" else None for o in res]
+            bad = res[0] != res[1] or ref_seg is None or any(s is None or any(x != ref_seg[0] for x in s) for s in segs)
+            if bad:
+                ck.violation("impl-violation", f"partial-sees-caller-loop:{ti}:{ci}",
+                             f"{src!r} with partials {LOOP_PARTIALS}: rendered {res}; at the top level the tag prints {ref_seg}: a rendered "
+                             "partial must not see the caller's forloop / parentloop / tablerowloop / loop variables",
+                             {"type": "loopobj", "tag": tag, "caller": src, "got": res, "reference": ref})
+
+
 def run(ck: Check) -> None:  # noqa: PLR0912, PLR0915
     ck.rule = (
         "seeded partial / macro bodies (probes of x,y,z; assign, capture, increment/decrement of those names; nested for/with/if to depth "
@@ -199,7 +252,9 @@ def run(ck: Check) -> None:  # noqa: PLR0912, PLR0915
         "concatenation of rendering each item on its own; (F) a render / call tag inside an OVERRIDDEN inheritance block (extends / "
         "block of liquid.extra) of base templates that assign, capture, count and block-scope x, y, z prints what the same tag prints at the "
         "top level of a template without local state, the base template's probes after the block equal those before it, and a rendered "
-        "partial that extends a base template cannot include from its overriding block. Non-trivial = the body reads or writes a name "
+        "partial that extends a base template cannot include from its overriding block; (G) a render tag inside the caller's for / tablerow "
+        "loops prints, per iteration, what it prints at the top level: forloop.parentloop, tablerowloop and the caller's loop variables are "
+        "undefined inside the partial. Non-trivial = the body reads or writes a name "
         "the caller binds; distinct = distinct (body, tag, caller) triple."
     )
     ck.exhaustive = False
@@ -215,6 +270,7 @@ def run(ck: Check) -> None:  # noqa: PLR0912, PLR0915
     ]
     ck.proof()
     inheritance_family(ck)
+    loop_object_family(ck)
     L.STRINGS.reset()
     rng = ck.rng
 
@@ -489,6 +545,21 @@ def replay(data) -> int:
             print(what)
         print(("VIOLATION reproduced" if ck_.v else "not reproduced") + f" property={data['property']}")
         return 1 if ck_.v else 0
+    if t == "loopobj":
+        from liquid import DictLoader, Environment
+
+        from ..core import classify_exc
+        outs = []
+        for src in ("<<" + case["tag"] + ">>", case["caller"]):
+            try:
+                outs.append(("out", Environment(loader=DictLoader(dict(LOOP_PARTIALS))).from_string(src).render(items=["A", "B"], secret=["s1", "s2", "s3"])))
+            except Exception as e:  # noqa: BLE001
+                outs.append(("err", classify_exc(e)))
+            print("template:", src, "\n  ->", outs[-1])
+        segs = [SEG.findall(o[1]) if o[0] == "out" else None for o in outs]
+        bad = segs[0] is None or segs[1] is None or any(x != segs[0][0] for x in segs[1])
+        print(("VIOLATION reproduced" if bad else "not reproduced") + f" property={data['property']}")
+        return 1 if bad else 0
     if t == "single" and "sync" in case:
         s, a = L.render_json(case["case"], False), L.render_json(case["case"], True)
         print("template:", case["case"]["template"], "partials:", case["case"]["partials"])
